@@ -101,11 +101,8 @@ impl EventGen for ReuseElement {
         // stuff fully handles other positioning. Should be unified.
         reuse_element.resolve_position(context)?;
 
-        let inst_el = context
-            .get_element(&elref)
-            .ok_or_else(|| SvgdxError::ReferenceError(elref.clone()))?;
         let mut pos = Position::from(&reuse_element);
-        if let Some(bb) = inst_el.content_bbox {
+        if let Some(bb) = context.get_element(&elref).and_then(|el| el.content_bbox) {
             pos.update_size(&bb.size());
         } else if let Some(sz) = instance_size {
             pos.update_size(&sz);
